@@ -47,6 +47,9 @@ type c04inst struct {
 	occ map[int]int
 	// the server does not know the tree yet: the first message arrives while it is being stored
 	window bool
+	// the server does not know the tree yet: the messages are parked by the overlay until `iarrive`
+	parked     bool
+	parkedMsgs [][3]string // type, source, value — in the order they were parked
 }
 
 type c04form struct {
@@ -77,6 +80,23 @@ func c04readersInSend() int {
 		}
 	}
 	return cnt
+}
+
+// c04flushIdleBut waits until at most n routines flushing parked messages (checkPendingMessages) are left: inside the
+// window of an `ifail` op the routine that is held there stays
+func c04flushIdleBut(n int) bool {
+	for dl := time.Now().Add(10 * time.Second); time.Now().Before(dl); time.Sleep(100 * time.Microsecond) {
+		cnt := 0
+		for _, g := range c04goroutines() {
+			if strings.Contains(g, ").checkPendingMessages") {
+				cnt++
+			}
+		}
+		if cnt <= n {
+			return true
+		}
+	}
+	return false
 }
 
 // c04flushIdle waits until no routine flushing parked messages (checkPendingMessages) exists any more,
@@ -255,6 +275,9 @@ func c04multiExec(c *h.Ctx, cs *h.Case) {
 		if in.blocked {
 			return "" // its barrier is queued behind the waiting Send
 		}
+		if in.parked {
+			return "" // no instance yet: a barrier message would be parked as well
+		}
 		in.barrier++
 		bsrc := "0"
 		if !in.isRoot {
@@ -277,16 +300,201 @@ func c04multiExec(c *h.Ctx, cs *h.Case) {
 		}
 		return in.rrec.TakeDels()
 	}
+	// what the property demands of one message handed to an instance of the standard protocol
+	expectStd := func(in *c04inst, ty int, src string, v int) string {
+		me := fmt.Sprintf("%d/%s/%d", ty, src, v)
+		fm, handled := in.forms[ty]
+		if !handled {
+			return "-"
+		}
+		if fm.slice && src != "p" {
+			in.pend[ty] = append(in.pend[ty], me)
+			if len(in.pend[ty]) == in.k {
+				w := strings.Join(in.pend[ty], ",")
+				in.pend[ty] = nil
+				return w
+			}
+			return "-"
+		}
+		return me
+	}
+	held := 0 // flush routines held inside the window of an `ifail` op
+	// a message for an instance whose tree the server does not know: parked by the overlay
+	parkMsg := func(in *c04inst, tk []string) string {
+		ty, _ := strconv.Atoi(tk[3])
+		v, _ := strconv.Atoi(tk[5])
+		in.sent[v] = fmt.Sprintf("%d/%s", ty, tk[4])
+		if err := inject(in, ty, tk[4], v); err != nil {
+			return "err"
+		}
+		in.parkedMsgs = append(in.parkedMsgs, [3]string{tk[3], tk[4], tk[5]})
+		return "-"
+	}
+	// the tree of an instance arrives (or is registered again): whatever is parked for it is handed over, in order
+	arrive := func(in *c04inst) string {
+		was := in.parked
+		in.parked = false
+		f.cl.Overlay(in.ct.srv).RegisterTree(in.ct.t)
+		if !c04flushIdleBut(held) {
+			cs.Fail("hang", "the flush of the parked messages does not end")
+			return "hang"
+		}
+		if !was && fix.RecOf(in.to) == nil {
+			return "-"
+		}
+		if was && len(in.parkedMsgs) == 0 {
+			return "-" // nothing was parked: no instance yet
+		}
+		if r := sync(in); r != "" {
+			cs.Fail(r, fmt.Sprintf("instance %d: barrier not handled after its tree arrived", in.id))
+			return r
+		}
+		ds := take(in)
+		in.checkDeliveries(cs, ds)
+		got := c04join(in.show(ds))
+		if premise {
+			var wants []string
+			for _, m := range in.parkedMsgs {
+				ty, _ := strconv.Atoi(m[0])
+				v, _ := strconv.Atoi(m[2])
+				if w := expectStd(in, ty, m[1], v); w != "-" {
+					wants = append(wants, w)
+				}
+			}
+			want := c04join(wants)
+			if !c04sameBatches(got, want) {
+				cs.Fail("batch-mismatch", fmt.Sprintf("when the tree of instance %d arrived it received %q, the property demands %q (what was parked, in order)", in.id, got, want))
+			}
+		}
+		in.parkedMsgs = nil
+		return got
+	}
 	for _, op := range cs.Ops {
 		tk := strings.Fields(op)
 		switch {
+		case len(tk) == 3 && tk[1] == "iarrive":
+			id, _ := strconv.Atoi(tk[2])
+			in := insts[id]
+			if in == nil || !in.std {
+				cs.Impl = append(cs.Impl, "bad-op")
+				continue
+			}
+			cs.Impl = append(cs.Impl, arrive(in))
+		case len(tk) >= 2 && tk[1] == "ifail":
+			// c04 ifail | <op> | <op> …: a protocol message for a protocol the server does not have is parked for a tree
+			// T1; T1 arrives; while the flush hands that message over (it cannot be delivered), the operations are
+			// executed one after the other: messages for waiting instances (parked), arrivals of their trees
+			var groups [][]string
+			bad := len(order) == 0
+			for _, x := range tk[2:] {
+				if x == "|" {
+					groups = append(groups, []string{"c04"})
+				} else if len(groups) == 0 {
+					bad = true
+				} else {
+					groups[len(groups)-1] = append(groups[len(groups)-1], x)
+				}
+			}
+			for _, g := range groups {
+				switch {
+				case len(g) == 6 && g[1] == "imsg", len(g) == 3 && (g[1] == "iarrive" || g[1] == "ireg"):
+					id, _ := strconv.Atoi(g[2])
+					if insts[id] == nil || !insts[id].std {
+						bad = true
+					}
+				default:
+					bad = true
+				}
+			}
+			if bad {
+				cs.Impl = append(cs.Impl, "bad-op")
+				continue
+			}
+			first := insts[order[0]]
+			t1 := f.unknownTree(first.isRoot, 1, rand.New(rand.NewSource(c.Seed*1000003+atomic.AddInt64(&c02unknown, 1))))
+			t1.t.ID = onet.TreeID(uuid.New())
+			ftok := fix.TokenFor(t1.t, t1.target, uuid.New())
+			ftok.ProtoID = onet.ProtocolNameToID("VerifNoSuchProtocol")
+			child := t1.target.Children[0]
+			fenv, err := fix.Envelope(child.ServerIdentity, fix.TokenFor(t1.t, child, uuid.UUID(ftok.RoundID)), ftok, fix.Payload(3, 1))
+			if err != nil {
+				panic(err)
+			}
+			f.cl.Overlay(t1.srv).Process(fenv) // parked: T1 is not known
+			var fired int32
+			var obs []string
+			want := ftok.ID()
+			onet.VerifSetHook(func(name string, key interface{}) {
+				pm, ok := key.(*onet.ProtocolMsg)
+				if !ok || name != "tm.found" || pm == nil || pm.To == nil || pm.To.ID() != want || !atomic.CompareAndSwapInt32(&fired, 0, 1) {
+					return
+				}
+				held = 1
+				for _, g := range groups {
+					id, _ := strconv.Atoi(g[2])
+					in := insts[id]
+					switch g[1] {
+					case "imsg":
+						if in.parked {
+							obs = append(obs, parkMsg(in, g))
+						} else {
+							// the tree is known: handed to the instance
+							ty, _ := strconv.Atoi(g[3])
+							v, _ := strconv.Atoi(g[5])
+							in.sent[v] = fmt.Sprintf("%d/%s", ty, g[4])
+							if err := inject(in, ty, g[4], v); err != nil {
+								obs = append(obs, "err")
+								continue
+							}
+							if r := sync(in); r != "" {
+								cs.Fail(r, "barrier not handled inside the window")
+								obs = append(obs, r)
+								continue
+							}
+							ds := take(in)
+							in.checkDeliveries(cs, ds)
+							got := c04join(in.show(ds))
+							if premise {
+								if w := expectStd(in, ty, g[4], v); !c04sameBatches(got, w) {
+									cs.Fail("batch-mismatch", fmt.Sprintf("inside the window instance %d received %q, the property demands %q", id, got, w))
+								}
+							}
+							obs = append(obs, got)
+						}
+					case "iarrive":
+						obs = append(obs, arrive(in))
+					case "ireg":
+						f.cl.Overlay(in.ct.srv).RegisterTree(in.ct.t)
+						c04flushIdleBut(held)
+						obs = append(obs, "ok")
+					}
+				}
+				held = 0
+			})
+			f.cl.Overlay(t1.srv).RegisterTree(t1.t)
+			c04flushIdle()
+			onet.VerifSetHook(nil)
+			if atomic.LoadInt32(&fired) == 0 {
+				cs.Impl = append(cs.Impl, "no-window")
+				cs.Fail("no-window", "the parked message that cannot be delivered was not handed over when its tree arrived")
+				continue
+			}
+			if len(obs) == 0 {
+				cs.Impl = append(cs.Impl, "ok")
+			} else {
+				cs.Impl = append(cs.Impl, strings.Join(obs, "|"))
+			}
 		case (len(tk) == 6 || len(tk) == 7) && tk[1] == "inst":
 			id, _ := strconv.Atoi(tk[2])
 			k, _ := strconv.Atoi(tk[4])
 			in := &c04inst{id: id, k: k, isRoot: tk[3] == "root", std: tk[5] == "std", round: uuid.New(),
 				pend: map[int][]string{}, sent: map[int]string{}, seen: map[int]bool{}, inChan: map[int][]string{},
 				occ: map[int]int{}}
-			if in.std && len(tk) == 7 && tk[6] == "window" {
+			if in.std && len(tk) == 7 && tk[6] == "parked" {
+				in.parked = true
+				in.ct = f.unknownTree(in.isRoot, k, rand.New(rand.NewSource(c.Seed*1000003+atomic.AddInt64(&c02unknown, 1))))
+				in.ct.t.ID = onet.TreeID(uuid.New()) // a tree id the server has never seen, whatever ran before in this process
+			} else if in.std && len(tk) == 7 && tk[6] == "window" {
 				in.window = true
 				in.ct = f.unknownTree(in.isRoot, k, rand.New(rand.NewSource(c.Seed*1000003+atomic.AddInt64(&c02unknown, 1))))
 			} else {
@@ -306,7 +514,7 @@ func c04multiExec(c *h.Ctx, cs *h.Case) {
 			}
 			insts[id] = in
 			if in.std {
-				if len(tk) == 7 && !in.window {
+				if len(tk) == 7 && !in.window && !in.parked {
 					cs.Impl = append(cs.Impl, "bad-op")
 					continue
 				}
@@ -361,6 +569,15 @@ func c04multiExec(c *h.Ctx, cs *h.Case) {
 			// the tree is registered again, as every start of a protocol on it does: whatever is parked for it is flushed
 			f.cl.Overlay(in.ct.srv).RegisterTree(in.ct.t)
 			c04flushIdle()
+			// a flush of a tree that is known delivers nothing: everything parked for it was handed over when it arrived
+			if in.std && !in.parked && !in.blocked && fix.RecOf(in.to) != nil {
+				if r := sync(in); r == "" {
+					if ds := take(in); len(ds) > 0 {
+						in.checkDeliveries(cs, ds)
+						cs.Fail("delivered-at-reflush", fmt.Sprintf("registering the known tree of instance %d again delivered %q", id, c04join(in.show(ds))))
+					}
+				}
+			}
 			cs.Impl = append(cs.Impl, "ok")
 		case len(tk) == 5 && tk[1] == "irace":
 			// c04 irace <id> <type> <v0>: the instance does not exist yet; every child's first message (values v0, v0+1, …)
@@ -459,6 +676,10 @@ func c04multiExec(c *h.Ctx, cs *h.Case) {
 			}
 			if in.blocked {
 				cs.Impl = append(cs.Impl, "stuck")
+				continue
+			}
+			if in.parked {
+				cs.Impl = append(cs.Impl, parkMsg(in, tk))
 				continue
 			}
 			ty, _ := strconv.Atoi(tk[3])
@@ -667,6 +888,95 @@ func c04multiGen(c *h.Ctx, yield func(*h.Case)) {
 			return "root"
 		}
 		return "inner"
+	}
+	// --- instances whose tree the server does not know yet (their children's messages are parked by the overlay) while a
+	// flush of another tree hands over a message that cannot be delivered: messages parked meanwhile, trees arriving
+	// meanwhile, re-registrations; then the rest of the round and further rounds
+	for n := 0; n < c.Pick(30, 400); n++ {
+		root := r.Intn(2) == 0
+		k := 2 + r.Intn(c.Pick(3, 5))
+		ty := 1 + r.Intn(2)
+		cs := &h.Case{Class: "flushfail premise"}
+		cs.Ops = append(cs.Ops, fmt.Sprintf("c04 inst 0 %s %d std parked", side(root), k))
+		two := r.Intn(3) == 0
+		if two {
+			cs.Ops = append(cs.Ops, fmt.Sprintf("c04 inst 1 %s %d std parked", side(root), k))
+		}
+		perm := r.Perm(k)
+		msg := func(inst, j int) string {
+			val++
+			return fmt.Sprintf("imsg %d %d %d %d", inst, ty, j, val)
+		}
+		variant := r.Intn(3)
+		before := r.Intn(k) // children whose message is parked before the window
+		if variant == 1 {
+			before = k - 1
+		}
+		for _, j := range perm[:before] {
+			cs.Ops = append(cs.Ops, "c04 "+msg(0, j))
+		}
+		var inner []string
+		arrived := false
+		switch variant {
+		case 0: // the rest of the round is parked inside the window, the tree arrives afterwards
+			for _, j := range perm[before:] {
+				inner = append(inner, msg(0, j))
+			}
+		case 1: // the tree arrives inside the window, the last child's message comes after a re-registration
+			inner = append(inner, "iarrive 0")
+			arrived = true
+		default:
+			rest := perm[before:]
+			cut := r.Intn(len(rest) + 1)
+			for _, j := range rest[:cut] {
+				inner = append(inner, msg(0, j))
+			}
+			if r.Intn(2) == 0 {
+				inner = append(inner, "iarrive 0")
+				arrived = true
+				for _, j := range rest[cut:] {
+					inner = append(inner, msg(0, j))
+				}
+				perm = perm[:before+cut]
+				perm = append(perm, rest[cut:]...)
+				before = k // everything sent
+			} else {
+				before += cut
+			}
+			if two {
+				inner = append(inner, msg(1, r.Intn(k)))
+			}
+		}
+		op := "c04 ifail"
+		for _, x := range inner {
+			op += " | " + x
+		}
+		cs.Ops = append(cs.Ops, op)
+		if variant == 0 {
+			before = k
+		}
+		if !arrived {
+			if r.Intn(2) == 0 {
+				cs.Ops = append(cs.Ops, "c04 ifail") // a second failing flush with nothing in its window
+			}
+			cs.Ops = append(cs.Ops, "c04 iarrive 0")
+		}
+		cs.Ops = append(cs.Ops, "c04 ireg 0")
+		if variant != 0 && before < k {
+			for _, j := range perm[before:] {
+				cs.Ops = append(cs.Ops, "c04 "+msg(0, j))
+			}
+		}
+		if two {
+			cs.Ops = append(cs.Ops, "c04 iarrive 1")
+		}
+		// one more round, one by one
+		for _, j := range r.Perm(k) {
+			cs.Ops = append(cs.Ops, "c04 "+msg(0, j))
+		}
+		cs.Ops = append(cs.Ops, "c04 ireg 0")
+		c.Count(fmt.Sprintf("class=flushfail premise variant=%d", variant))
+		yield(cs)
 	}
 	// --- an instance created by its children's first messages, all arriving at once (the constructor of the first is
 	// held until the others are past the tree lookup), then further rounds one by one
